@@ -55,6 +55,7 @@ var Checks = map[string]func(env *Env, rep *Report){
 	"C15": RunC15,
 	"C09": RunC09,
 	"C16": RunC16,
+	"C20": RunC20,
 	"C06": RunC06,
 }
 
